@@ -1,5 +1,6 @@
 SPECIFICATION Spec
 CONSTANTS N = 5
+ MaxMult = 2
  Closed = TRUE
 INVARIANT CellsDisjoint
 CHECK_DEADLOCK FALSE
